@@ -56,6 +56,12 @@ func (n *normalEncoderDecoder) EncodeRevisionKey(key []byte) []byte {
 
 // Decode implements Coder interface
 func (n *normalEncoderDecoder) Decode(internalKey []byte) (userKey []byte, revision uint64, err error) {
+	// a key too short to hold magic, split byte and revision is not an internal key (a client-supplied
+	// partition border may be any bytes): report it, never index out of range
+	if len(internalKey) < len(magicBytes)+1+8 {
+		return nil, 0, errors.Errorf("object key %v is too short", hex.EncodeToString(internalKey))
+	}
+
 	if !bytes.Equal(internalKey[:len(magicBytes)], magicBytes) {
 		return nil, 0, errors.Errorf("magic number not right for object key %v", hex.EncodeToString(internalKey))
 	}
